@@ -30,6 +30,7 @@ pub const EDIT_KINDS: &[&str] = &[
     "edit_string_literal",
     "shift_space_in_line",
     "change_attribute",
+    "add_variant_or_member",
 ];
 
 const NEW_ITEMS: &[&str] = &[
@@ -452,6 +453,45 @@ pub fn apply(kind: &str, cur: &str, rng: &mut Rng) -> Option<String> {
                 _ => s.insert_str(at, "ed"),
             }
             Some(s)
+        }
+        "add_variant_or_member" => {
+            // A new variant in an enum / member in a struct (right before the closing brace), or a
+            // changed payload type of an existing variant.
+            let mut bodies: Vec<(usize, usize, bool)> = vec![]; // (open line, close line, is enum)
+            let mut i = 0;
+            while i < n {
+                let t = lines[i].trim_start();
+                let is_enum = t.starts_with("enum ") || t.starts_with("pub enum ");
+                let is_struct = t.starts_with("struct ") || t.starts_with("pub struct ");
+                if (is_enum || is_struct) && lines[i].trim_end().ends_with('{') {
+                    if let Some(close) = (i + 1..n).find(|k| lines[*k].trim() == "}") {
+                        bodies.push((i, close, is_enum));
+                        i = close;
+                    }
+                }
+                i += 1;
+            }
+            if bodies.is_empty() {
+                return None;
+            }
+            let (open, close, is_enum) = bodies[rng.below(bodies.len())];
+            if is_enum && rng.chance(1, 2) && close > open + 1 {
+                // Change a payload type.
+                let k = open + 1 + rng.below(close - open - 1);
+                let l = lines[k].clone();
+                let tys = ["felt252", "u128", "u32", "u8", "u64"];
+                for (a, from) in tys.iter().enumerate() {
+                    if l.contains(from) {
+                        lines[k] = l.replacen(from, tys[(a + 1 + rng.below(4)) % 5], 1);
+                        return Some(join(&lines));
+                    }
+                }
+                return None;
+            }
+            let k = rng.below(100);
+            let new = if is_enum { format!("    Extra{k}: u16,") } else { format!("    extra{k}: u16,") };
+            lines.insert(close, new);
+            Some(join(&lines))
         }
         "change_attribute" => {
             // Attribute edits: inline hints, derive lists, adding / removing an attribute line.
